@@ -135,7 +135,8 @@ Conf(nd, s, s2) ==
     [] OTHER -> FALSE
 
 ConfSdk(nd, s2) == LET v == nd.st.inv IN
-  /\ (v.dep \/ v.pc => ~C04GlobalEscrow(s2)) /\ (v.rem => ~C04PairEscrow(s2)) /\ (v.status => ~C04ZeroDisabled(s2))
+  \* the SDK's escrow invariants are per app (weaker than C04_GlobalEscrow), its order / pool invariants are the same statements
+  /\ (v.dep \/ v.pc => ~C04GlobalEscrow(s2)) /\ (v.rem <=> ~C04PairEscrow(s2)) /\ (v.status <=> ~C04ZeroDisabled(s2))
 ConfResidue(nd, pj, s, s2) ==
   IF nd.parent = 0 THEN \A x \in Range(nd.st.xs) : x.xb = 0 /\ x.xq = 0
   ELSE \A p \in s2.pairs :
